@@ -321,3 +321,85 @@ Proof.
   cbv zeta. repeat split; try lia; try (repeat constructor; discriminate);
     try (vm_compute; reflexivity); try (vm_compute; discriminate).
 Qed.
+
+(* ==== GenAgree (measures): what matrix/measure.py, stripe/measure.py, cubepart.py SAY NOW ==== *)
+(* Gen/MeasureSrc.v, Gen/StripeMeasureSrc.v, Gen/PartMeasureSrc.v are REWRITTEN FROM THE SOURCE on every
+   check by harness/translate/measures.py (an `ast` whitelist, fail-closed): one [option mexp] per
+   (class, member) -- per block for a `blocks` member -- read through the wiring of the collection class.
+   The theorems below say that what the source SAYS NOW ([meval] / the signed-square reading [meval_sq] of
+   the translated term, Base/MeasureExp.v), for ALL input blocks, sizes and subtotal lists, IS the
+   definition of Model.Zscore the theorems above are about -- tagged shape and every in-range cell.
+   [None] on the left = the translator could not read the member (then only the correspondence ties it).
+   A change of meaning in the source breaks these obligations (Proofs/GenAgreeZscore.v fails). *)
+From Coq Require String.
+From CC Require Base.MeasureExp Model.Subtotals Model.Proportions Gen.MeasureSrc Gen.StripeMeasureSrc Gen.PartMeasureSrc Gen.Tables
+     Proofs.GenAgreeMeasTac Proofs.GenAgreeZscore.
+Section GenAgreeMeasures_C12.   (* scopes and imports below end with the section *)
+Import Coq.Strings.String CC.Base.MeasureExp CC.Model.Subtotals CC.Model.Proportions CC.Gen.MeasureSrc CC.Gen.StripeMeasureSrc
+       CC.Gen.PartMeasureSrc CC.Gen.Tables CC.Proofs.GenAgreeMeasTac CC.Proofs.GenAgreeZscore.
+Import Coq.Lists.List.ListNotations CC.Base.XQ.
+Local Close Scope Q_scope.
+Local Open Scope string_scope.
+Local Open Scope nat_scope.
+
+Theorem C12_gen_zscores :
+  (match src_Zscores_blocks_00 with
+  | Some e => forall nr nc rsubs csubs rd cd blk cubem cubeflag flag,
+      z_shaped blk 0 0 (nr) (nc) ->
+      holds_mat_sq (menv_mat nr nc rsubs csubs rd cd blk cubem cubeflag flag) e DR DC
+        (mnth (z_model blk flag 0 0))
+  | None => True
+  end) /\
+  (match src_Zscores_blocks_01 with
+  | Some e => forall nr nc rsubs csubs rd cd blk cubem cubeflag flag,
+      z_shaped blk 0 1 (nr) (List.length csubs) ->
+      holds_mat_sq (menv_mat nr nc rsubs csubs rd cd blk cubem cubeflag flag) e DR DCS
+        (mnth (z_model blk flag 0 1))
+  | None => True
+  end) /\
+  (match src_Zscores_blocks_10 with
+  | Some e => forall nr nc rsubs csubs rd cd blk cubem cubeflag flag,
+      z_shaped blk 1 0 (List.length rsubs) (nc) ->
+      holds_mat_sq (menv_mat nr nc rsubs csubs rd cd blk cubem cubeflag flag) e DRS DC
+        (mnth (z_model blk flag 1 0))
+  | None => True
+  end) /\
+  (match src_Zscores_blocks_11 with
+  | Some e => forall nr nc rsubs csubs rd cd blk cubem cubeflag flag,
+      z_shaped blk 1 1 (List.length rsubs) (List.length csubs) ->
+      holds_mat_sq (menv_mat nr nc rsubs csubs rd cd blk cubem cubeflag flag) e DRS DCS
+        (mnth (z_model blk flag 1 1))
+  | None => True
+  end).
+Proof. exact (conj gen_Zscores_blocks_00 (conj gen_Zscores_blocks_01 (conj gen_Zscores_blocks_10 gen_Zscores_blocks_11))). Qed.
+Print Assumptions C12_gen_zscores.
+
+Theorem C12_gen_is_defective :
+  match src_Zscores__is_defective with
+  | Some c => forall nr nc rsubs csubs rd cd blk cubem cubeflag flag,
+      nrows (blk "weighted_counts" 0 0) = nr -> ncols (blk "weighted_counts" 0 0) = nc ->
+      ceval (menv_mat nr nc rsubs csubs rd cd blk cubem cubeflag flag) c =
+      Some (defective (blk "weighted_counts" 0 0))
+  | None => True
+  end.
+Proof. exact gen_Zscores__is_defective. Qed.
+Print Assumptions C12_gen_is_defective.
+
+(* non-vacuity: the table [[3, 1], [1, 3]] (margins 4, 4 of 8): expected 2, variance 1/2, so the
+   translated z*|z| is 2 in cell (0, 0) and -2 in cell (0, 1) *)
+Example C12_gen_example :
+  match src_Zscores_blocks_00 with
+  | Some e =>
+      let blk := fun (m : string) (_ _ : nat) =>
+        if String.eqb m "weighted_counts" then [[Fin 3%Q; Fin 1%Q]; [Fin 1%Q; Fin 3%Q]]
+        else if String.eqb m "table_weighted_bases" then [[Fin 8%Q; Fin 8%Q]; [Fin 8%Q; Fin 8%Q]]
+        else [[Fin 4%Q; Fin 4%Q]; [Fin 4%Q; Fin 4%Q]] in
+      match meval_sq (menv_mat 2 2 [] [] false false blk (fun _ _ => []) (fun _ _ => false) (fun _ => false)) e with
+      | VMat DR DC f => f 0 0 =x= Fin 2%Q /\ f 0 1 =x= Fin (Qmake (-2) 1)
+      | _ => False
+      end
+  | None => True
+  end.
+Proof. vm_compute. first [exact I | split; reflexivity]. Qed.
+
+End GenAgreeMeasures_C12.
